@@ -340,3 +340,11 @@ int __wrap_pthread_join(pthread_t t, void **ret) {
     return rc;
 }
 #endif
+
+int perturb_create_harness_thread(pthread_t *t, void *(*fn)(void *), void *arg) {
+#ifndef VERIF_NO_WRAP
+    return __real_pthread_create(t, NULL, fn, arg);
+#else
+    return pthread_create(t, NULL, fn, arg);
+#endif
+}
